@@ -420,6 +420,8 @@ FLAG_EXEMPT = {
 
 
 def run(ctx):
+    from . import c12
+    c12.rule_slices(ctx)     # R12.1: the position-only maps used by correctors and kernels are the posvel maps restricted to positions
     from . import edges
     edges.rule_threshold_siblings(ctx, 'R01.13')     # one quantity, one literal, one line: SABA corrector types are recognised alike at every site
     edges.rule_sentinel_before_use(ctx, 'R10.12')    # defaults are substituted before the member is read
